@@ -295,12 +295,17 @@ def oracle(ctx, d, fail=None):
                 break
     else:
         exp = ref_pairs(d, latt, coords)
-    if exp is not None and got != exp:
-        extra, miss = sorted(got - exp)[:3], sorted(exp - got)[:3]
-        fail(cls + ":adjacency-not-nearest-neighbours", inp,
-             "ones exactly at the geometric nearest-neighbour pairs",
-             {"extra": [(i, j, coords[i], coords[j]) for i, j in extra],
-              "missing": [(i, j, coords[i], coords[j]) for i, j in miss]})
+    if exp is not None:
+        # self-loops are reported by the diagonal check above; here: links between distinct sites
+        extra = sorted(p for p in got - exp if p[0] != p[1])[:3]
+        miss = sorted(exp - got)[:3]
+        show = lambda ps: [(i, j, [float(v) for v in coords[i]], [float(v) for v in coords[j]]) for i, j in ps]
+        if extra:
+            fail(cls + ":adjacency-has-a-link-that-is-not-a-nearest-neighbour-pair", inp,
+                 "ones exactly at the geometric nearest-neighbour pairs", {"extra": show(extra)})
+        if miss:
+            fail(cls + ":adjacency-misses-a-nearest-neighbour-pair", inp,
+                 "ones exactly at the geometric nearest-neighbour pairs", {"missing": show(miss)})
     if d[0] == "hex":
         f = hex_graph_facts(d[1], d[2])
         if n != f["V"] or len(got) != 2 * f["E"] or not connected(n, got) or max(Ai.sum(0), default=0) > 3:
